@@ -1,0 +1,9 @@
+// +build verif
+
+package identity
+
+// VerifETHWitness / VerifSetETHWitness give a simulator that hosts several nodes in one
+// process access to the per-process witness flag (build tag "verif" only).
+func VerifETHWitness() bool { return isETHWitness }
+
+func VerifSetETHWitness(v bool) { isETHWitness = v }
